@@ -18,12 +18,34 @@ func init() { Registry["C14"] = C14 }
 func C14(p *ir.Program, r *report.R) {
 	c := C{p, r}
 	r.Floor = 35
-	r.Explain = "Decided: in WALDecoder.Decode the payload is decoded only after its CRC32C matched the stored checksum and its length passed the size bound; every error result is classified — a read that hit io.EOF is passed through as end-of-log, everything that depends on the bytes read (checksum mismatch, impossible length, undecodable payload) is a DataCorruptionError, a plain error only for a non-EOF I/O failure; writer and reader agree on the frame (same CRC table object, big endian, crc at [0:4], length at [4:8], payload after, length = len(payload)); SearchForEndHeight reports found only for an EndHeightMessage with the requested height, visits files newest to oldest and skips only classified corruption; catchupReplay starts only after the marker of the previous height was found and none for the current one; finalizeCommit writes the marker with WriteSync (Write then Flush, both fatal on error) after CommitBlock. NOT decided: behaviour at every cut offset / byte flip as a value property, CRC collisions, rotation timing; that GroupReader.Read fills the buffer or returns an error (bufio semantics, trusted)."
+	r.Explain = "Decided: in WALDecoder.Decode the payload is decoded only after its CRC32C matched the stored checksum and its length passed the size bound; every error result is classified — a read that hit io.EOF is passed through as end-of-log, everything that depends on the bytes read (checksum mismatch, impossible length, undecodable payload) is a DataCorruptionError, a plain error only for a non-EOF I/O failure; writer and reader agree on the frame (same CRC table object, big endian, crc at [0:4], length at [4:8], payload after, length = len(payload)); SearchForEndHeight reports found only for an EndHeightMessage with the requested height, visits files newest to oldest and skips only classified corruption; catchupReplay starts only after the marker of the previous height was found and none for the current one; finalizeCommit writes the marker with WriteSync (Write then Flush, both fatal on error) after CommitBlock. ADDED after seeded-change testing: SearchForEndHeight gives up before the oldest file only after a marker with 0 < h < height was seen; in catchupReplay a failed non-EOF Decode never leads back to the next Decode; a decoder using io.ReadFull must return ErrUnexpectedEOF as end-of-log. NOT decided: behaviour at every cut offset / byte flip as a value property, CRC collisions, rotation timing; that GroupReader.Read fills the buffer or returns an error (bufio semantics, trusted)."
 	r.Trusted = []string{"hash/crc32", "autofile.GroupReader.Read returns a full buffer or an error", "libs/ser (C11)"}
 
 	dec := p.Func("consensus", "WALDecoder.Decode")
 	name := "consensus.(*WALDecoder).Decode"
 	reads := ir.Calls(dec, "io.Reader.Read")
+	// A record field read with io.ReadFull reports a field cut short as io.ErrUnexpectedEOF:
+	// the torn tail of a log must still be the end of the log, so such a decoder has to
+	// classify ErrUnexpectedEOF like io.EOF.
+	if full := ir.Calls(dec, "io.ReadFull"); len(full) > 0 {
+		okShort := true
+		for _, rd := range full {
+			e := ir.RenderCall(rd) + "#1"
+			ok := false
+			for _, rt := range ir.Returns(dec) {
+				if ir.HasFact(ir.FactsAt(rt.Instr), ir.EqPat(e, "io.ErrUnexpectedEOF")) && (ir.Render(rt.Results[1]) == "io.EOF" || ir.AbstractResult(rt.Results[1]) == "nonnil:ErrEOF") {
+					ok = true
+				}
+			}
+			if !ok {
+				okShort = false
+			}
+		}
+		r.Check("K8", name+"/short-read-is-end-of-log", p.InstrPos(full[0].(ssa.Instruction)), okShort, "a field cut short (io.ErrUnexpectedEOF from io.ReadFull) is returned as io.EOF, not as a plain error")
+		if !okShort {
+			return
+		}
+	}
 	if !c.MustFind("K1", name+"/reads", dec, len(reads), "dec.rd.Read calls") {
 		return
 	}
@@ -188,9 +210,44 @@ func C14(p *ir.Program, r *report.R) {
 				}
 			}
 		}
+		// the "older files cannot contain it" shortcut: only after a marker below the requested
+		// height was actually seen (a head file without any marker says nothing about older files)
+		nStop := 0
+		for _, rt := range ir.Returns(fn) {
+			if ir.AbstractResult(rt.Results[1]) != "false" || ir.AbstractResult(rt.Results[2]) != "nil" {
+				continue
+			}
+			fs := ir.FactsAt(rt.Instr)
+			if !ir.HasFact(fs, ir.EqPat(msg+"#1", "io.EOF")) {
+				continue // the final "not found" after all files
+			}
+			nStop++
+			r.Check("K1", sn+"/early-stop/marker-below-seen", p.InstrPos(rt.Instr), ir.HasFact(fs, "lt(0,φ:lastHeightFound)") && ir.HasFact(fs, "lt(φ:lastHeightFound,height)"),
+				"the search gives up before the oldest file only when an end-height marker with 0 < h < height was seen: "+short(strings.Join(ir.FactStrings(fs), " ; "), 300))
+		}
+		r.Stats["early-stop returns"] = nStop
 		// catchupReplay
 		cr := p.Func("consensus", "ConsensusState.catchupReplay")
 		rn := csT + "catchupReplay"
+		// a record of the unfinished height that fails to decode ends the replay (panic or error):
+		// skipping it would replay a sequence that is not a prefix of what was written
+		for _, call := range ir.Calls(cr, "consensus.WALDecoder.Decode") {
+			e := ir.RenderCall(call) + "#1"
+			bad := ""
+			for _, b := range cr.Blocks {
+				fs := ir.FactsAtBlock(b)
+				if !(ir.HasFact(fs, "!eq("+e+",nil)") || ir.HasFact(fs, "consensus.IsDataCorruptionError("+e+")")) || ir.HasFact(fs, ir.EqPat(e, "io.EOF")) {
+					continue
+				}
+				if len(b.Instrs) == 0 {
+					continue
+				}
+				if found, _, tr := ir.FindPath(ir.PathQuery{From: ir.Point{B: b, I: -1}, Target: func(in ssa.Instruction) bool { return in == call.(ssa.Instruction) }}); found {
+					bad = fmt.Sprintf("block %d (facts %s) leads back to the next Decode, blocks %v", b.Index, short(strings.Join(ir.FactStrings(fs), ";"), 160), tr)
+				}
+			}
+			r.Check("K8", rn+"/decode-failure-ends-replay", p.InstrPos(call.(ssa.Instruction)), bad == "", "after a failed (non-EOF) Decode the replay loop is never continued: "+bad)
+		}
 		for _, call := range ir.Calls(cr, "consensus.ConsensusState.readReplayMessage") {
 			c.Guards(rn, "replay", call,
 				G{"previous-marker-found", "consensus.WAL.SearchForEndHeight(cs.wal,(csHeight - 1),*)#1"},
